@@ -368,7 +368,7 @@ func execMulti(plan Plan, tmp string) (res *result) {
 	}
 	for i := range res.plan.Ops {
 		op := &res.plan.Ops[i]
-		if x.child == nil && op.Kind != "restart" && op.Kind != "restartcrash" {
+		if x.child == nil && op.Kind != "restart" && op.Kind != "restartcrash" && op.Kind != "startintr" {
 			op.Kind = "skip"
 			continue
 		}
@@ -473,6 +473,36 @@ func execMulti(plan Plan, tmp string) (res *result) {
 			if err := crashLast(op); err != nil {
 				return fail(err)
 			}
+		case "startintr":
+			if x.child != nil { // kill: everything written so far stays
+				if _, _, err := x.mclose(len(x.calls)); err != nil {
+					return fail(err)
+				}
+			}
+			io, herr, derr := x.startInterrupted(op, x.ord, func() error {
+				_, _, err := x.mclose(0)
+				return err
+			})
+			if herr != nil {
+				return fail(herr)
+			}
+			if derr != nil {
+				x.mclose(0)
+				x.mobs = append(x.mobs, mobs{obs: obs{Died: true, Why: "interrupted start-up: " + short(derr.Error())}})
+				res.plan.Ops = res.plan.Ops[:i+1]
+				return res
+			}
+			if io.Complete { // nobody saw the cancellation: an ordinary start
+				o := x.mobserve()
+				x.mobs = append(x.mobs, o)
+				if o.Died {
+					res.plan.Ops = res.plan.Ops[:i+1]
+					return
+				}
+				continue
+			}
+			x.mobs = append(x.mobs, mobs{obs: obs{Intr: io}})
+			res.nintr++
 		case "restart", "restartcrash":
 			if x.child != nil { // kill: everything written so far stays
 				if _, _, err := x.mclose(len(x.calls)); err != nil {
@@ -592,6 +622,8 @@ func coqCaseMulti(res *result) (string, bool) {
 			sb.WriteString("IMRestart")
 		case "restartcrash":
 			fmt.Fprintf(&sb, "IMRestartCrash %s %s %s", natList(o.CutV), casefile.Bool(o.Torn), casefile.Bool(o.PL))
+		case "startintr":
+			fmt.Fprintf(&sb, "IMStartIntr %d", o.K)
 		}
 	}
 	sb.WriteString("] [")
@@ -601,6 +633,17 @@ func coqCaseMulti(res *result) (string, bool) {
 		}
 		if o.Died {
 			sb.WriteString("IMDied")
+			continue
+		}
+		if o.Intr != nil {
+			sb.WriteString("IMIntr [")
+			for j, c := range o.Intr.Files {
+				if j > 0 {
+					sb.WriteString("; ")
+				}
+				sb.WriteString(c.coq())
+			}
+			sb.WriteString("]")
 			continue
 		}
 		sb.WriteString("IMUp [")
@@ -735,6 +778,12 @@ func (g *gen) multiHistory(maxRounds int) Plan {
 		if g.r.Chance(1, 3) {
 			p.Ops = append(p.Ops, POp{Kind: "restartcrash", J: -1, Torn: g.r.Bool(), PL: g.r.Bool()})
 		}
+		if g.r.Chance(1, 3) { // SIGTERM while the loader replays the unsealed fractions
+			p.Ops = append(p.Ops, POp{Kind: "startintr", K: -1})
+			if g.r.Chance(1, 3) {
+				p.Ops = append(p.Ops, POp{Kind: "startintr", K: -1 - g.r.Intn(2)})
+			}
+		}
 		p.Ops = append(p.Ops, POp{Kind: "restart"})
 		hasDocs, pending = false, 0
 	}
@@ -791,8 +840,67 @@ func (g *gen) multiRotateWitness(j int) Plan {
 	return p
 }
 
+// two or three unsealed fractions (2 + 1 (+ 1) meta blocks: 3 + 2 (+ 2) polls) at a start-up that is interrupted
+// after k polls: before / inside / after the replay of each of them (k = all polls: nobody sees the cancellation);
+// variant bit 0: a third fraction, bit 1: power loss instead of a kill; then a start, a bulk, an interrupted
+// start-up at a random poll, a start
+func (g *gen) multiIntr(k, variant int) Plan {
+	g2 := &gen{r: rng.New(83)}
+	p := Plan{Class: "multi-intr", Seed: g.r.U64(), Multi: true}
+	p.Bulks = [][]PDoc{g2.bulk(2), g2.bulk(2), g2.bulk(2), g2.bulk(2), g2.bulk(1)}
+	p.Ops = []POp{{Kind: "restart"}, {Kind: "bulk", Bulk: 0}, {Kind: "bulk", Bulk: 1}, {Kind: "rotate"}, {Kind: "bulk", Bulk: 2}}
+	if variant&1 != 0 {
+		p.Ops = append(p.Ops, POp{Kind: "rotate"}, POp{Kind: "bulk", Bulk: 3})
+	}
+	if variant&2 != 0 {
+		p.Ops = append(p.Ops, POp{Kind: "power"})
+	}
+	p.Ops = append(p.Ops, POp{Kind: "startintr", K: k}, POp{Kind: "restart"}, POp{Kind: "bulk", Bulk: 4},
+		POp{Kind: "startintr", K: -1}, POp{Kind: "restart"})
+	return p
+}
+
+// an interrupted start-up that has clean-up to do before it is cancelled: the leftover .meta/.docs of a sealed
+// fraction (crash after the .index rename), a rotated-in fraction that holds nothing, a torn meta tail in the
+// fraction replayed first
+func (g *gen) multiIntrCleanup(k, variant int) Plan {
+	g2 := &gen{r: rng.New(84)}
+	p := Plan{Class: "multi-intr-cleanup", Seed: g.r.U64(), Multi: true}
+	p.Bulks = [][]PDoc{g2.bulk(2), g2.bulk(2), g2.bulk(2), g2.bulk(1)}
+	switch variant {
+	case 0: // both forms of fraction 0, fraction 1 unsealed
+		p.Ops = []POp{{Kind: "restart"}, {Kind: "bulk", Bulk: 0}, {Kind: "rotate"}, {Kind: "bulk", Bulk: 1},
+			{Kind: "sealcrash", J: 8, PL: true}}
+	case 1: // fraction 0 unsealed, fraction 1 holds nothing
+		p.Ops = []POp{{Kind: "restart"}, {Kind: "bulk", Bulk: 0}, {Kind: "rotate"}, {Kind: "power"}}
+	default: // torn meta tail in fraction 0 ... cannot be followed by a rotation: a single fraction with a tail
+		p.Ops = []POp{{Kind: "restart"}, {Kind: "bulk", Bulk: 0}, {Kind: "crashin", Bulk: 1, K: 2, T: -1, KD: -1, KM: -1}}
+	}
+	p.Ops = append(p.Ops, POp{Kind: "startintr", K: k}, POp{Kind: "restart"}, POp{Kind: "bulk", Bulk: 2}, POp{Kind: "rotate"},
+		POp{Kind: "bulk", Bulk: 3}, POp{Kind: "startintr", K: -1}, POp{Kind: "restart"})
+	return p
+}
+
 func multiPlans(g *gen, thorough bool) []Plan {
 	var plans []Plan
+	for variant := 0; variant < 4; variant++ {
+		total := 5
+		if variant&1 != 0 {
+			total = 7
+		}
+		for k := 0; k <= total; k++ {
+			if thorough || g.r.Chance(1, 4) {
+				plans = append(plans, g.multiIntr(k, variant))
+			}
+		}
+	}
+	for variant := 0; variant < 3; variant++ {
+		for k := 0; k <= 3; k++ {
+			if thorough || k == variant+1 || g.r.Chance(1, 4) { // k = variant+1: the clean-up has happened when the cancellation is seen
+				plans = append(plans, g.multiIntrCleanup(k, variant))
+			}
+		}
+	}
 	for j := 0; j <= 11; j++ {
 		if thorough {
 			for _, pl := range []bool{false, true} {
